@@ -62,6 +62,7 @@ struct USock
 	bool recv_pending = false;
 	bool drain = false;     // reader that always keeps a receive pending
 	int64_t sndbuf = -1;    // configured send buffer, -1 default
+	bool df = false;        // don't-fragment option as last stated
 	int64_t last_send_t = -1;
 	// pending receive
 	int style = 0;
@@ -162,6 +163,21 @@ struct Udp
 		else if (o.op == "send") do_send(a, int(uint64_t(o.b) % uint64_t(nsock)), o.c, o.d);
 		else if (o.op == "recv") do_recv(a, int(uint64_t(o.b) % 3), o.c, int(uint64_t(o.d) % 3) + 1);
 		else if (o.op == "sndbuf") do_sndbuf(a, o.c);
+		else if (o.op == "df") do_df(a, int(uint64_t(o.b) % 4));
+	}
+
+	// the don't-fragment option: a datagram over the path MTU (1475 everywhere in this engine) is then discarded by the
+	// sender, a stated reason; everything else about send_to stays as it is
+	void do_df(int a, int how)
+	{
+		USock& s = socks[a];
+		if (!s.s->is_open()) return;
+		error_code ec;
+		if (how < 2) s.s->set_option(boost::asio::detail::socket_option::integer<IPPROTO_IP, IP_MTU_DISCOVER>(how == 1 ? IP_PMTUDISC_DO : IP_PMTUDISC_DONT), ec);
+		else s.s->set_option(boost::asio::detail::socket_option::boolean<IPPROTO_IP, IP_DONTFRAGMENT>(how == 2), ec);
+		s.df = how == 1 || how == 2;
+		ctx.tr.rec("df", {a, how}, {});
+		ctx.hit(s.df ? "dont_fragment_set" : "dont_fragment_cleared");
 	}
 
 	void do_bind(int a, int variant)
@@ -173,6 +189,8 @@ struct Udp
 		{
 			s.s->open(udp::v4(), ec);
 			s.s->non_blocking(true);
+			// the option is stated again for the new incarnation
+			s.s->set_option(boost::asio::detail::socket_option::integer<IPPROTO_IP, IP_MTU_DISCOVER>(s.df ? IP_PMTUDISC_DO : IP_PMTUDISC_DONT), ec);
 		}
 		NodeCfg const& n = nodes[size_t(s.node)];
 		ip::address const addr = n.ips[size_t(sock_ipidx[a]) % n.ips.size()];
@@ -276,6 +294,16 @@ struct Udp
 			{
 				if (ec != boost::asio::error::message_size) fail("udp.send.oversize", "send_to of " + std::to_string(size) + " bytes returned " + ec.message() + ", expected message_size");
 				if (egress_after != egress_before) fail("udp.send.oversize", "an oversized datagram was put on the wire");
+				continue;
+			}
+			if (s.df && size > net.default_mtu)
+			{
+				// discarded by the sender: reported as sent (or as would_block), never on the wire
+				ctx.hit("dont_fragment_discard");
+				if (egress_after != egress_before) fail("udp.send.df_sent", "a datagram over the path MTU left a socket with don't-fragment set");
+				if (ec == boost::asio::error::would_block) { if (n != 0) fail("udp.send.would_block_sent", "send_to reported would_block with a non-zero count"); }
+				else if (ec) fail("udp.send.error", "send_to failed: " + ec.message());
+				else if (int64_t(n) != size) fail("udp.send.count", "send_to reported " + std::to_string(n) + " bytes for a datagram of " + std::to_string(size));
 				continue;
 			}
 			if (ec == boost::asio::error::would_block)
@@ -692,7 +720,8 @@ struct UdpEngine : Engine
 			}
 			else if (u < 0.83) { o.op = "close"; if (mode != 3 && rng.chance(0.5)) continue; }
 			else if (u < 0.93) { o.op = "bind"; o.b = int64_t(rng.below(5)); }
-			else { o.op = "sndbuf"; o.c = int64_t(rng.below(50)); }
+			else if (u < 0.97) { o.op = "sndbuf"; o.c = int64_t(rng.below(50)); }
+			else { o.op = "df"; o.b = int64_t(rng.below(4)); }
 			p.ops.push_back(o);
 		}
 		return p;
